@@ -30,7 +30,7 @@ from detsim.runner import Discard
 PROP = "C15"
 LEVEL = "fault_enumeration"
 RUNS = {"quick": 8000, "thorough": 120000}
-BUDGET_S = {"quick": 90, "thorough": 1500}
+BUDGET_S = {"quick": 150, "thorough": 1500}
 EXHAUSTIVE = {"quick": False, "thorough": False}
 PAIRS_PER_CHART = {"quick": 16, "thorough": 120}  # ordered pairs of faults, sampled above this
 RULE = ("each run takes one seeded well-formed chart and enumerates every single corruption of "
